@@ -105,7 +105,11 @@ def block(rng, names, defs, depth, allow):
     if k == "task":
         return ["- [ ] todo", f"- [x] {words(rng)}"]
     if k == "heading":
-        return ["# " + names.new("Head") + " " + words(rng, 1, 3)]      # unique text: duplicate names are C05/C09 matter
+        # unique text (duplicate names are C05/C09 matter); levels without jumps: 1 .. current + 1
+        cur = getattr(names, "hlevel", 0)
+        lvl = rng.randint(1, min(cur + 1, 4))
+        names.hlevel = lvl
+        return ["#" * lvl + " " + names.new("Head") + " " + words(rng, 1, 3)]
     if k == "colondiv":
         return [":::name", words(rng), ":::"]
     if k == "directive":
